@@ -263,6 +263,7 @@ pub trait TypedIterable {
     {
         let new_name_len = DNSSector::check_uncompressed_name(name, 0)?;
         let name = &name[..new_name_len];
+        Compress::check_compressed_name(name, 0)?;
         if self.parsed_packet().maybe_compressed {
             let (uncompressed, new_offset) = {
                 let ref_offset = self.offset().ok_or(DSError::VoidRecord)?;
